@@ -143,6 +143,13 @@ func EnvRefString(t *tape.Tape, label string, vars []string) string {
 			b.WriteString([]string{"-", "/", " ", "_", "."}[t.Draw(5, label+":gluec")])
 		}
 	}
+	// values that begin or end with white space or line breaks (YAML block scalars end with one)
+	switch t.Draw(16, label+":edge-ws") {
+	case 13:
+		b.WriteString([]string{"\n", "\r\n", "\r", "\n\n", " ", "\t"}[t.Draw(6, label+":edge-ws-tail")])
+	case 14:
+		return []string{"\n", " ", "\r\n", "\t"}[t.Draw(4, label+":edge-ws-head")] + b.String()
+	}
 	return b.String()
 }
 
